@@ -51,6 +51,8 @@ const (
 	// EOFPacket - https://dev.mysql.com/doc/internals/en/packet-EOF_Packet.html
 	EOFPacket = 0xfe
 	ErrPacket = 0xff
+	// LocalInfilePacket - https://dev.mysql.com/doc/dev/mysql-server/latest/page_protocol_com_query_response_local_infile_request.html
+	LocalInfilePacket = 0xfb
 )
 
 const (
